@@ -1522,7 +1522,9 @@ namespace bloch::runtime {
         }
     }
 
-    void RuntimeEvaluator::destroyObject(Object* obj, bool runUserDestructor) {
+    void RuntimeEvaluator::destroyObject(const std::shared_ptr<Object>& self,
+                                         bool runUserDestructor) {
+        Object* obj = self.get();
         if (!obj || obj->destroyed)
             return;
         obj->destroyed = true;
@@ -1545,7 +1547,7 @@ namespace bloch::runtime {
                 beginFrame();
                 Value thisVal;
                 thisVal.type = Value::Type::Object;
-                thisVal.objectValue = std::shared_ptr<Object>(obj, [](Object*) {});
+                thisVal.objectValue = self;
                 thisVal.className = cur->name;
                 m_env.back()["this"] = {thisVal, false, true};
                 m_hasReturn = false;
@@ -2533,8 +2535,12 @@ namespace bloch::runtime {
                 const bool savedCtor = m_inConstructor;
                 const bool savedDtor = m_inDestructor;
                 const bool savedReturn = m_hasReturn;
+                // The destructor sees the object through 'corpse'. Should it store 'this' somewhere
+                // that outlives the call, the destroyed object (its fields are gone) stays
+                // addressable until that last reference dies, instead of dangling.
+                std::shared_ptr<Object> corpse(obj, [](Object* dead) { delete dead; });
                 try {
-                    destroyObject(obj, !obj->skipDestructor);
+                    destroyObject(corpse, !obj->skipDestructor);
                 } catch (const BlochError& err) {
                     if (!m_pendingDestructorError)
                         m_pendingDestructorError = err;
@@ -2547,7 +2553,6 @@ namespace bloch::runtime {
                     m_hasReturn = savedReturn;
                 } catch (...) {
                 }
-                delete obj;
             };
             auto obj = std::shared_ptr<Object>(new Object{}, deleter);
             obj->cls = cls;
